@@ -337,7 +337,7 @@ func buildC12(tier string) *core.Plan {
 		}}
 
 	// named counts: every assignment of counts 0..3 to 1-3 names
-	nameSets := [][]string{{"x"}, {"y", "x"}, {"b", "a", "c"}}
+	nameSets := [][]string{{"x"}, {"y", "x"}, {"b", "a", "c"}, {"b", "az"}, {"shard2", "shard10"}}
 	var named []map[string]any
 	for _, ns := range nameSets {
 		var rec func(k int, cur map[string]any)
@@ -364,6 +364,11 @@ func buildC12(tier string) *core.Plan {
 		map[string]any{"l": []any{`$"{$repeat:x}"`, map[string]any{"n": `$"{$repeat:y}"`}}},
 		[]any{`$"{$repeat:x}"`, 1},
 		map[string]any{"v": 1},
+		map[string]any{"v": `$"{$repeat:b}/{$repeat:az}"`},
+		map[string]any{"v": `$"{$repeat:shard2}/{$repeat:shard10}"`},
+		// a document-level named variable used inside nested (unnamed) repeats, one and two levels down
+		map[string]any{"l": []any{map[string]any{"$repeat": 2, "n": `$"{$repeat:x}.{$repeat}"`, "m": []any{map[string]any{"$repeat": 2, "d": `$"{$repeat:x}:{$repeat}"`}}}}},
+		map[string]any{"m": map[string]any{`$"k{$repeat}"`: map[string]any{"$repeat": 2, "in": map[string]any{`$"j{$repeat}"`: map[string]any{"$repeat": 1, "d": `$"{$repeat:x}"`}}}}},
 	}
 	nn := int64(len(named))
 	namedSpace := core.Space{Name: "named-counts", N: nn * int64(len(namedBodies)),
